@@ -42,6 +42,9 @@ PREDICT = {
     "nonmain_busy": [(0, 1, 0), (None, 0, 0)],
     "lockholder": [(None, 1, 0)],    # sleeping in a callback while holding the receive lock; the interrupt unwinds it
     "transfer": [(0, 1, 0)],         # send raises OSError once the connection is gone
+    "endmarker_raiser": [(None, 1, 0)],   # a callback that raises when it is handed its endmarker by the epilogue; the body sleeps
+    "sender": [(0, 1, 0)],           # a stream of small items: unflushed bytes stay in the write buffer when the peer dies
+    "sender_swallow": [(0, 1, 0)],
 }
 
 
@@ -169,11 +172,11 @@ def main(tier, seed, replay=None):
     rng = ck.rng
     virtual_layer(ck, ok, tier, rng)
     real_layer(ck, tier, rng)
-    return ck.finish(rule="real processes: an initiating process (own interpreter) starts 1-2 popen workers (thread / main_thread_only) with one of 9 activities (idle, blocked in receive, busy loop, sleeping, swallowing KeyboardInterrupt -- validated locally to survive three SIGINTs --, extra daemon threads, a busy body outside the main thread, a callback sleeping while it holds the receive lock, an endless 1 MB transfer) and is SIGKILLed / exits / closes the connection after the workers reported their pids; every worker pid must be gone after t1 + t2 + slack. distinct = (activity, how, execmodel, workers).")
+    return ck.finish(rule="real processes: an initiating process (own interpreter) starts 1-2 popen workers (thread / main_thread_only) with one of 11 activities (idle, blocked in receive, busy loop, sleeping, swallowing KeyboardInterrupt, extra daemon threads, a busy body outside the main thread, a callback sleeping while it holds the receive lock, an endless 1 MB transfer, an endless stream of small items with and without swallowing interrupts) and is SIGKILLed / exits / closes the connection after the workers reported their pids; every worker pid must be gone after t1 + t2 + slack. distinct = (activity, how, execmodel, workers).")
 
 
 def real_layer(ck, tier, rng):
-    acts = ["idle", "blocked", "busy", "sleeping", "swallow", "threads", "nonmain_busy", "lockholder", "transfer"]
+    acts = ["idle", "blocked", "busy", "sleeping", "swallow", "threads", "nonmain_busy", "lockholder", "transfer", "sender", "sender_swallow", "endmarker_raiser"]
     hows = ["kill", "kill", "exit", "close"]
     jobs = []
     if tier == "quick":
